@@ -100,6 +100,10 @@ def check (inp out : List String) : Verdict :=
             ("failsafe_registered_by_default", flags / 16 % 2 == 1),
             ("whole_frames", leftover.isEmpty && received.all (·.isSome)),
             ("startup_locked", !neverReleased || received.all Spec.C18.harmless),
+            -- every Abort press the operator made (as the record sequence says) reached the daemon as a stop-all
+            ("every_abort_press_is_forwarded_as_stop",
+              (m.filter fun (_, sc, _) => sc == some (.abort .pressed)).length
+                ≤ (received.filter fun p => p == some (.motion .stopAll)).length),
             ("engine_range", received.all Spec.C18.engineOk),
             ("deadband", received.all Spec.C18.deadbandOk) ] }
       | _, _ => .bad "e2e values"
